@@ -33,8 +33,10 @@ PROPS = {
                 theorems=[], profiles=[("wf", 500, 30000), ("wild", 400, 30000), ("fault1", 100, 10000)]),
     "C11": dict(level="translation_validation", modules=["SemVerif.Props.C11"],
                 theorems=[], profiles=[("wf", 800, 50000), ("wfclean", 300, 20000)]),
-    "C12": dict(level="translation_validation", modules=["SemVerif.Props.C12"],
-                theorems=[], profiles=[("wf", 400, 30000), ("wild", 400, 30000), ("fault1", 200, 10000)]),
+    "C12": dict(level="proof", modules=["SemVerif.Props.C12"],
+                theorems=["SemVerif.C12", "SemVerif.C12_function", "SemVerif.St.probeInner_fresh", "SemVerif.steps_functionBody"],
+                claim="Machine-checked Lean 4 theorem C12: for every program p the output predicate (internal names of FunctionArg/LetBinding pairwise distinct per function; every read / field read / assignment carries a record introduced by an earlier declaration) holds on the model's result — invariant over primitive steps; the freshness of a new let's name is the probe lemma probeInner_fresh (candidates a.(m+k) are pairwise distinct because decimal printing is injective, so fuel |registry|+1 is never exhausted). Tied to /repo by the correspondence run (projection: declaration and use records) with the colliding name pool.",
+                technique="Lean 4 proof (invariant over primitive steps + probe-loop lemma) + differential correspondence of the executable model", profiles=[("wf", 400, 30000), ("wild", 400, 30000), ("fault1", 200, 10000)]),
     "C13": dict(level="translation_validation", modules=["SemVerif.Props.C13"],
                 theorems=[], profiles=[("wild", 800, 50000), ("loopout", 300, 10000), ("wf", 200, 10000)]),
     "C14": dict(level="translation_validation", modules=["SemVerif.Props.C14"],
